@@ -542,4 +542,16 @@ struct_member = Unit(
 )
 struct_member.global_callees["append_format"] = VFun("append_format[wformat model]", _append_format)
 struct_member.pure_callees = ["set_f_module", "update_f_module"]
-UNITS_C05 = [struct_member]
+# Wrapf.wrap_function_interface: a bind(C) interface may be declared `pure` for a const method only if EVERY dummy
+# argument is intent(in) (Fortran 2008 C1276 for functions) -- hidden ones included: they are dummies of the interface.
+pure_step = Unit(
+    prop="C05", name="Wrapf.wrap_function_interface[args_all_in step]", target="shroud/wrapf.py::Wrapf.wrap_function_interface",
+    slice=('intent = meta["intent"]', 'if intent != "in": pass'),
+    params={"meta": "dict[str]", "args_all_in": "bool", "attrs": "dict[str]"},
+    requires=["'intent' in meta"],
+    init="all0 = args_all_in\n",
+    ensures=["implies(args_all_in, all0 and meta['intent'] == 'in')",
+             "implies(all0 and meta['intent'] == 'in', args_all_in)"],
+    raises=[],
+)
+UNITS_C05 = [struct_member, pure_step]
